@@ -238,4 +238,21 @@ theorem scan_regions_area {V : Type} (nx ny : Nat) (conn8 : Bool) (close : V →
   intro p hp
   rw [scanRegs_eq nx ny conn8 close values mask (List.mem_range.mp hp)]
 
+/-- every ring of `scan` is well formed -/
+theorem scan_regions_wf {V : Type} (nx ny : Nat) (conn8 : Bool) (close : V → V → Bool)
+    (values : Nat → V) (mask : Nat → Bool) (hnx : 0 < nx)
+    (hsymm : ∀ a b, close a b = true → close b a = true)
+    (htrans : ∀ a b c, close a b = true → close b c = true → close a c = true)
+    (sc : Scan V) (hsc : scan nx ny conn8 close values mask = sc) :
+    ∀ k, k < sc.polys.length → ∀ ring ∈ sc.polys.getD k [], ringWellFormed nx ny ring = true := by
+  intro k hk
+  have hlen := (scan_regions_lossless nx ny conn8 close values mask hnx hsymm htrans).2.1
+  rw [hsc] at hlen
+  exact scan_wf nx ny hnx (scanRegs nx ny conn8 close values mask) conn8
+    (fun p q => Link nx conn8 close values mask (nx * ny) p q)
+    (scanRegs_link nx ny conn8 close values mask hnx hsymm htrans)
+    (scanRegs_conn nx ny conn8 close values mask hnx hsymm htrans) values
+    (scanRegs_ranked nx ny conn8 close values mask hnx hsymm htrans) sc
+    (by rw [← scan_eq]; exact hsc) k (by omega)
+
 end XrsVerif.Polygonize
